@@ -1,22 +1,28 @@
 """Translator (T): lekkersim/scattering.py  ->  lean/LekkerVerif/Generated/Kernel.lean
 
-Regenerates, from the *current* source of `S_matrix.add` and `S_matrix.int_complete`,
-Lean definitions over Mathlib matrices.  The subset accepted is deliberately small;
-anything else raises `Unsupported` (reported as a broken obligation, never skipped).
+`S_matrix.add` and `S_matrix.int_complete` of the *current* source are executed on operands whose four blocks are
+symbolic matrices (`A.S11 : k×n`, … for the left operand of dimensions `(N, M) = (n, k)`, the right one `(k, m)`;
+the three dimensions are distinct numbers, so every shape identifies its index types) while the names `np` and
+`linalg` of the module are bound to a stand-in that records matrix-level operations:
 
-Rules (one per construct):
   np.matmul(X, Y), X @ Y, np.dot(X, Y)   ->  X * Y     (matrix·matrix)  /  X *ᵥ y (matrix·vector)
   linalg.inv(X), np.linalg.inv(X)        ->  X⁻¹
-  linalg.solve(X, y)                     ->  X⁻¹ *ᵥ y
-  np.identity(obj.DIM[, complex]), np.eye ->  (1 : Matrix d d F)  with d the index type of obj.DIM
-  X + Y, X - Y, -X                       ->  same
-  obj.S11 / S12 / S21 / S22              ->  field of the operand
-  np.expand_dims(v, -1), np.squeeze(v, -1) -> v   (column-vector bookkeeping)
-  `E if len(v) > 0 else np.zeros(...)`   ->  E    (a product over an empty index type *is* zero)
-  `if self.M != s.N: raise`              ->  recorded guard; the shared dimension becomes one index type
+  linalg.solve(X, y)                     ->  X⁻¹ *ᵥ y   (X⁻¹ * Y for a matrix right-hand side)
+  np.identity(d[, dtype]), np.eye(d)     ->  (1 : Matrix d d F)
+  np.zeros(shape)                        ->  0
+  X + Y, X - Y, -X, np.add / subtract / negative
+  np.expand_dims(v, -1), np.squeeze(v, -1), v[:, None], v.reshape(-1, 1)  -> v   (column-vector bookkeeping)
+  np.broadcast_to(X, X.shape), X.astype(..), X.copy()                       -> X
+  len(v), X.shape, np.shape(X)           ->  the (concrete) trace dimensions
+
+Because the code is *run*, helper functions, loops, comprehensions, renamed temporaries and hoisted sub-expressions
+are transparent.  Anything else (element access, a truth value of a symbolic array, an unknown numpy function) raises
+`Unsupported`, reported as a broken obligation, never approximated.  The dimension guard is established by executing
+`add` on operands with mismatched intermediate dimensions (it must raise *before* any arithmetic), the result shape by
+reading `N`/`M` of the returned object.
 """
 from __future__ import annotations
-import ast
+
 import sys
 
 
@@ -24,243 +30,346 @@ class Unsupported(Exception):
     pass
 
 
-def _unparse(e):
-    return ast.unparse(e)
+class ShapeMismatch(ValueError):
+    """raised by the stand-in itself when shapes do not fit (i.e. the traced code did not reject them first)"""
 
 
-class KernelTranslator:
-    def __init__(self, src: str, path: str = "lekkersim/scattering.py"):
-        self.path = path
-        self.tree = ast.parse(src)
-        cls = [n for n in self.tree.body if isinstance(n, ast.ClassDef) and n.name == "S_matrix"]
-        if not cls:
-            raise Unsupported(f"{path}: class S_matrix not found")
-        self.cls = cls[0]
+DIMS = {2: "n", 3: "k", 5: "m"}          # trace sizes -> index types
+N_, K_, M_ = 2, 3, 5
 
-    def _fn(self, name):
-        fs = [n for n in self.cls.body if isinstance(n, ast.FunctionDef) and n.name == name]
-        if not fs:
-            raise Unsupported(f"{self.path}: S_matrix.{name} not found")
-        return fs[0]
 
-    # --- expressions -----------------------------------------------------
-    def expr(self, e, env, objs, dims):
-        """returns (lean_string, kind) with kind in {'M','V'}"""
-        def U(msg=None):
-            return Unsupported(f"UNSUPPORTED {self.path}:{getattr(e, 'lineno', '?')}: {msg or _unparse(e)}")
-        if isinstance(e, ast.Call):
-            f = _unparse(e.func)
-            if f in ("np.matmul", "np.dot", "numpy.matmul"):
-                if len(e.args) != 2 or e.keywords:
-                    raise U()
-                a, ka = self.expr(e.args[0], env, objs, dims)
-                b, kb = self.expr(e.args[1], env, objs, dims)
-                if ka != "M":
-                    raise U("left operand of matmul is not a matrix")
-                return (f"({a} * {b})", "M") if kb == "M" else (f"({a} *ᵥ {b})", "V")
-            if f in ("linalg.inv", "np.linalg.inv", "numpy.linalg.inv"):
-                if len(e.args) != 1 or e.keywords:
-                    raise U()
-                a, ka = self.expr(e.args[0], env, objs, dims)
-                if ka != "M":
-                    raise U()
-                return f"({a})⁻¹", "M"
-            if f in ("linalg.solve", "np.linalg.solve"):
-                if len(e.args) != 2 or e.keywords:
-                    raise U()
-                a, ka = self.expr(e.args[0], env, objs, dims)
-                b, kb = self.expr(e.args[1], env, objs, dims)
-                if ka != "M" or kb != "V":
-                    raise U("linalg.solve(matrix, vector) expected")
-                return f"(({a})⁻¹ *ᵥ {b})", "V"
-            if f in ("np.identity", "np.eye"):
-                if not e.args:
-                    raise U()
-                d = e.args[0]
-                if not (isinstance(d, ast.Attribute) and isinstance(d.value, ast.Name) and (d.value.id, d.attr) in dims):
-                    raise U("identity of unknown dimension")
-                for extra in e.args[1:]:
-                    if _unparse(extra) != "complex":
-                        raise U()
-                t = dims[(d.value.id, d.attr)]
-                return f"(1 : Matrix {t} {t} F)", "M"
-            if f in ("np.expand_dims", "np.squeeze"):
-                if len(e.args) != 2 or _unparse(e.args[1]) != "-1":
-                    raise U()
-                a, ka = self.expr(e.args[0], env, objs, dims)
-                if ka != "V":
-                    raise U()
-                return a, "V"
-            raise U()
-        if isinstance(e, ast.IfExp):
-            # E if len(v) > 0 else np.zeros(...)
-            t = e.test
-            ok = (isinstance(t, ast.Compare) and len(t.ops) == 1 and isinstance(t.ops[0], ast.Gt)
-                  and _unparse(t.left).startswith("len(") and _unparse(t.comparators[0]) == "0"
-                  and isinstance(e.orelse, ast.Call) and _unparse(e.orelse.func) == "np.zeros")
-            if not ok:
-                raise U()
-            return self.expr(e.body, env, objs, dims)
-        if isinstance(e, ast.BinOp):
-            if isinstance(e.op, ast.MatMult):
-                a, ka = self.expr(e.left, env, objs, dims)
-                b, kb = self.expr(e.right, env, objs, dims)
-                if ka != "M":
-                    raise U()
-                return (f"({a} * {b})", "M") if kb == "M" else (f"({a} *ᵥ {b})", "V")
-            op = {ast.Add: "+", ast.Sub: "-"}.get(type(e.op))
-            if op is None:
-                raise U()
-            a, ka = self.expr(e.left, env, objs, dims)
-            b, kb = self.expr(e.right, env, objs, dims)
-            if ka != kb:
-                raise U("adding matrix and vector")
-            return f"({a} {op} {b})", ka
-        if isinstance(e, ast.UnaryOp) and isinstance(e.op, ast.USub):
-            a, ka = self.expr(e.operand, env, objs, dims)
-            return f"(-{a})", ka
-        if isinstance(e, ast.Attribute) and isinstance(e.value, ast.Name) and e.value.id in objs:
-            if e.attr in ("S11", "S12", "S21", "S22"):
-                return f"{objs[e.value.id]}.{e.attr}", "M"
-            raise U()
-        if isinstance(e, ast.Name) and e.id in env:
-            return env[e.id]
-        raise U()
+class MX:
+    """symbolic matrix (shape (r, c)) or vector (shape (r,) — `col` marks the (r, 1) column form)"""
+    __array_priority__ = 3000
+    __array_ufunc__ = None
 
-    # --- S_matrix.add ------------------------------------------------------
-    def translate_add(self):
-        fn = self._fn("add")
-        args = [a.arg for a in fn.args.args]
-        if len(args) != 2:
-            raise Unsupported(f"UNSUPPORTED {self.path}:{fn.lineno}: add signature")
-        selfn, othern = args
-        objs = {selfn: "A", othern: "B"}
-        dims = {(selfn, "N"): "n", (selfn, "M"): "k", (othern, "N"): "k", (othern, "M"): "m"}
-        lets, env, fields = [], {}, {}
-        guard = None
-        res = None
-        resdims = None
-        for st in fn.body:
-            if isinstance(st, ast.Expr) and isinstance(st.value, ast.Constant):
-                continue
-            if isinstance(st, ast.If):
-                if not (len(st.body) == 1 and isinstance(st.body[0], ast.Raise) and not st.orelse):
-                    raise Unsupported(f"UNSUPPORTED {self.path}:{st.lineno}: {_unparse(st.test)}")
-                guard = _unparse(st.test)
-                continue
-            if isinstance(st, ast.Assign) and len(st.targets) == 1:
-                t = st.targets[0]
-                if isinstance(t, ast.Name):
-                    if isinstance(st.value, ast.Call) and _unparse(st.value.func) == "S_matrix":
-                        res = t.id
-                        resdims = [_unparse(a) for a in st.value.args]
-                        continue
-                    s, kind = self.expr(st.value, env, objs, dims)
-                    lets.append((t.id, s))
-                    env[t.id] = (t.id, kind)
-                    continue
-                if isinstance(t, ast.Attribute) and isinstance(t.value, ast.Name) and t.value.id == res:
-                    s, kind = self.expr(st.value, env, objs, dims)
-                    if kind != "M":
-                        raise Unsupported(f"UNSUPPORTED {self.path}:{st.lineno}: field is not a matrix")
-                    fields[t.attr] = s
-                    continue
-            if isinstance(st, ast.Return):
-                if not (isinstance(st.value, ast.Name) and st.value.id == res):
-                    raise Unsupported(f"UNSUPPORTED {self.path}:{st.lineno}: return")
-                continue
-            raise Unsupported(f"UNSUPPORTED {self.path}:{st.lineno}: {_unparse(st)[:60]}")
-        if set(fields) != {"S11", "S12", "S21", "S22"}:
-            raise Unsupported(f"UNSUPPORTED {self.path}:{fn.lineno}: result fields {sorted(fields)}")
-        guard_ok = guard is not None and guard.replace(" ", "") in (
-            f"{selfn}.M!={othern}.N", f"{othern}.N!={selfn}.M")
-        dims_ok = resdims == [f"{selfn}.N", f"{othern}.M"]
-        out = []
-        out.append(f"/-- `S_matrix.add` as written in {self.path}:{fn.lineno}.  Guard in source: `{guard}`;"
-                   f" result dimensions in source: `{resdims}`. -/")
-        out.append("noncomputable def add (A : SM F n k) (B : SM F k m) : SM F n m :=")
-        for nm, v in lets:
-            out.append(f"  let {nm} := {v}")
-        out.append("  { " + "\n    ".join(f"{k} := {fields[k]}" for k in ("S21", "S11", "S12", "S22")) + " }")
-        out.append("")
-        out.append("/-- the source rejects operands whose intermediate dimensions differ (`if self.M != s.N: raise`) -/")
-        out.append(f"def addGuardPresent : Bool := {'true' if guard_ok else 'false'}")
-        out.append("/-- the result is declared with dimensions (self.N, s.M) -/")
-        out.append(f"def addResultDimsOk : Bool := {'true' if dims_ok else 'false'}")
-        return "\n".join(out)
+    def __init__(self, op, args, shape, col=False):
+        self.op, self.args, self.shape, self.col = op, tuple(args), tuple(shape), col
 
-    # --- S_matrix.int_complete ---------------------------------------------
-    def translate_int_complete(self):
-        fn = self._fn("int_complete")
-        args = [a.arg for a in fn.args.args]
-        if len(args) != 4:
-            raise Unsupported(f"UNSUPPORTED {self.path}:{fn.lineno}: int_complete signature")
-        selfn, othern, un, dn = args
-        objs = {selfn: "A", othern: "B"}
-        dims = {(selfn, "N"): "n", (selfn, "M"): "k", (othern, "N"): "k", (othern, "M"): "m"}
-        env = {un: ("u", "V"), dn: ("d", "V")}
-        lets = []
-        ret = None
-        for st in fn.body:
-            if isinstance(st, ast.Expr) and isinstance(st.value, ast.Constant):
-                continue
-            if isinstance(st, ast.Assign) and len(st.targets) == 1 and isinstance(st.targets[0], ast.Name):
-                s, kind = self.expr(st.value, env, objs, dims)
-                nm = st.targets[0].id
-                lean_nm = nm + "'" if nm in ("do",) else nm   # `do` is a Lean keyword
-                lets.append((lean_nm, s, kind))
-                env[nm] = (lean_nm, kind)
-                continue
-            if isinstance(st, ast.Return):
-                v = st.value
-                if not (isinstance(v, ast.Tuple) and len(v.elts) == 2):
-                    raise Unsupported(f"UNSUPPORTED {self.path}:{st.lineno}: return")
-                a, ka = self.expr(v.elts[0], env, objs, dims)
-                b, kb = self.expr(v.elts[1], env, objs, dims)
-                if ka != "V" or kb != "V":
-                    raise Unsupported(f"UNSUPPORTED {self.path}:{st.lineno}: return kinds")
-                ret = (a, b)
-                continue
-            raise Unsupported(f"UNSUPPORTED {self.path}:{st.lineno}: {_unparse(st)[:60]}")
-        if ret is None:
-            raise Unsupported(f"UNSUPPORTED {self.path}:{fn.lineno}: no return")
-        out = []
-        out.append(f"/-- `S_matrix.int_complete` as written in {self.path}:{fn.lineno}: interface amplitudes"
-                   " (first → second, second → first). -/")
-        out.append("noncomputable def intComplete (A : SM F n k) (B : SM F k m) (u : n → F) (d : m → F) :"
-                   " (k → F) × (k → F) :=")
-        for nm, v, kind in lets:
-            ty = "Matrix k k F" if kind == "M" else "k → F"
-            out.append(f"  let {nm} : {ty} := {v}")
-        out.append(f"  ({ret[0]}, {ret[1]})")
-        return "\n".join(out)
+    # ---- structure ------------------------------------------------------------------------------------------
+    @property
+    def is_vec(self):
+        return len(self.shape) == 1
 
-    def render(self):
-        parts = [
-            "-- GENERATED on every run by harness/translate/kernel.py from /repo/" + self.path + " — do not edit.",
-            "import LekkerVerif.Core.KernelDefs",
-            "",
-            "open Matrix",
-            "",
-            "namespace Generated",
-            "",
-            "variable {F : Type*} [Field F]",
-            "variable {n k m : Type*} [Fintype n] [Fintype k] [Fintype m] [DecidableEq n] [DecidableEq k] [DecidableEq m]",
-            "",
-            self.translate_add(),
-            "",
-            self.translate_int_complete(),
-            "",
-            "end Generated",
-            "",
-        ]
-        return "\n".join(parts)
+    @property
+    def ndim(self):
+        return 2 if (not self.is_vec or self.col) else 1
+
+    def __len__(self):
+        return self.shape[0]
+
+    def _no(self, what):
+        raise Unsupported(f"UNSUPPORTED {what} of a symbolic array in the kernel")
+
+    def __bool__(self):
+        self._no("truth value")
+
+    def __iter__(self):
+        self._no("iteration")
+
+    def __getitem__(self, key):
+        # v[:, None] / v[..., None] / v[:, np.newaxis]: column form
+        if self.is_vec and isinstance(key, tuple) and len(key) == 2 and key[1] is None and key[0] in (slice(None), Ellipsis):
+            return MX(self.op, self.args, self.shape, col=True)
+        if self.is_vec and self.col and isinstance(key, tuple) and len(key) == 2 and key[0] in (slice(None), Ellipsis) and key[1] == 0:
+            return MX(self.op, self.args, self.shape, col=False)
+        self._no(f"indexing [{key!r}]")
+
+    def reshape(self, *shape):
+        shape = shape[0] if len(shape) == 1 and isinstance(shape[0], (tuple, list)) else shape
+        if self.is_vec and tuple(shape) in ((-1, 1), (self.shape[0], 1)):
+            return MX(self.op, self.args, self.shape, col=True)
+        if self.is_vec and tuple(shape) in ((-1,), (self.shape[0],)):
+            return MX(self.op, self.args, self.shape, col=False)
+        self._no(f"reshape{tuple(shape)!r}")
+
+    def copy(self):
+        return self
+
+    def squeeze(self, axis=None):
+        return _NP.squeeze(self, axis)
+
+    def astype(self, dtype, **kw):
+        return self
+
+    def __deepcopy__(self, memo):
+        return self
+
+    # ---- algebra --------------------------------------------------------------------------------------------
+    def _lin(self, op, o, swap=False):
+        if not isinstance(o, MX):
+            if isinstance(o, (int, float, complex)) and o == 0:
+                return self if (op == "add" or not swap) else -self
+            raise Unsupported(f"UNSUPPORTED {op} of a symbolic array and {type(o).__name__}")
+        if o.shape != self.shape:
+            raise Unsupported(f"UNSUPPORTED broadcasting {self.shape} with {o.shape}")
+        a, b = (o, self) if swap else (self, o)
+        return MX(op, (a, b), self.shape, col=self.col or o.col)
+
+    def __add__(self, o):
+        return self._lin("add", o)
+
+    def __radd__(self, o):
+        return self._lin("add", o, True)
+
+    def __sub__(self, o):
+        return self._lin("sub", o)
+
+    def __rsub__(self, o):
+        return self._lin("sub", o, True)
+
+    def __neg__(self):
+        return MX("neg", (self,), self.shape, col=self.col)
+
+    def __pos__(self):
+        return self
+
+    def __matmul__(self, o):
+        return matmul(self, o)
+
+    def __rmatmul__(self, o):
+        return matmul(o, self)
+
+    def __mul__(self, o):
+        self._no("element-wise product")
+
+    __rmul__ = __truediv__ = __mul__
+
+    # ---- printing -------------------------------------------------------------------------------------------
+    def lean(self):
+        op, a = self.op, self.args
+        if op == "leaf":
+            return a[0]
+        if op == "one":
+            d = DIMS[self.shape[0]]
+            return f"(1 : Matrix {d} {d} F)"
+        if op == "zero":
+            if self.is_vec:
+                return f"(0 : {DIMS[self.shape[0]]} → F)"
+            return f"(0 : Matrix {DIMS[self.shape[0]]} {DIMS[self.shape[1]]} F)"
+        if op == "neg":
+            return f"(-{a[0].lean()})"
+        if op in ("add", "sub"):
+            return f"({a[0].lean()} {'+' if op == 'add' else '-'} {a[1].lean()})"
+        if op == "mul":
+            return f"({a[0].lean()} * {a[1].lean()})"
+        if op == "mulVec":
+            return f"({a[0].lean()} *ᵥ {a[1].lean()})"
+        if op == "inv":
+            return f"({a[0].lean()})⁻¹"
+        raise Unsupported(f"UNSUPPORTED node {op}")
+
+
+def matmul(x, y):
+    if not isinstance(x, MX) or not isinstance(y, MX):
+        raise Unsupported("UNSUPPORTED matrix product with a non-symbolic operand")
+    if x.is_vec:
+        raise Unsupported("UNSUPPORTED vector on the left of a matrix product")
+    if x.shape[1] != y.shape[0]:
+        raise ShapeMismatch(f"matmul: mismatch {x.shape} @ {y.shape}")
+    if y.is_vec:
+        return MX("mulVec", (x, y), (x.shape[0],), col=y.col)
+    return MX("mul", (x, y), (x.shape[0], y.shape[1]))
+
+
+def _dim(k):
+    if isinstance(k, bool) or not isinstance(k, int) or k not in DIMS:
+        raise Unsupported(f"UNSUPPORTED dimension {k!r} (not one of the trace dimensions)")
+    return k
+
+
+class _Linalg:
+    @staticmethod
+    def inv(x):
+        if not isinstance(x, MX) or x.is_vec or x.shape[0] != x.shape[1]:
+            raise Unsupported("UNSUPPORTED linalg.inv operand")
+        return MX("inv", (x,), x.shape)
+
+    @staticmethod
+    def solve(a, b):
+        return matmul(_Linalg.inv(a), b)
+
+    def __getattr__(self, name):
+        raise Unsupported(f"UNSUPPORTED linalg.{name} in the kernel")
+
+
+class _NP:
+    linalg = _Linalg()
+    newaxis = None
+    complex128 = complex
+
+    @staticmethod
+    def identity(k, dtype=None):
+        return MX("one", (), (_dim(k), _dim(k)))
+
+    @staticmethod
+    def eye(k, M=None, k_=0, dtype=None, **kw):
+        if M not in (None, k) or k_ != 0 or kw.get("k", 0) != 0:
+            raise Unsupported("UNSUPPORTED np.eye variant")
+        return MX("one", (), (_dim(k), _dim(k)))
+
+    @staticmethod
+    def zeros(shape, dtype=None):
+        if isinstance(shape, int):
+            return MX("zero", (), (_dim(shape),))
+        shape = tuple(shape)
+        if len(shape) == 1:
+            return MX("zero", (), (_dim(shape[0]),))
+        if len(shape) == 2 and shape[1] == 1:
+            return MX("zero", (), (_dim(shape[0]),), col=True)
+        if len(shape) == 2:
+            return MX("zero", (), (_dim(shape[0]), _dim(shape[1])))
+        raise Unsupported(f"UNSUPPORTED zeros{shape}")
+
+    @staticmethod
+    def zeros_like(x, dtype=None):
+        return MX("zero", (), x.shape, col=x.col)
+
+    matmul = staticmethod(matmul)
+    dot = staticmethod(matmul)
+
+    @staticmethod
+    def add(a, b):
+        return a + b
+
+    @staticmethod
+    def subtract(a, b):
+        return a - b
+
+    @staticmethod
+    def negative(a):
+        return -a
+
+    @staticmethod
+    def expand_dims(v, axis):
+        if isinstance(v, MX) and v.is_vec and axis in (-1, 1):
+            return MX(v.op, v.args, v.shape, col=True)
+        raise Unsupported("UNSUPPORTED np.expand_dims use")
+
+    @staticmethod
+    def squeeze(v, axis=None):
+        if isinstance(v, MX) and v.is_vec and axis in (-1, 1, None):
+            return MX(v.op, v.args, v.shape, col=False)
+        raise Unsupported("UNSUPPORTED np.squeeze use")
+
+    @staticmethod
+    def broadcast_to(x, shape):
+        if isinstance(x, MX) and tuple(shape) == _NP.shape(x):
+            return x
+        raise Unsupported("UNSUPPORTED np.broadcast_to that changes the shape")
+
+    @staticmethod
+    def shape(x):
+        if isinstance(x, MX):
+            return x.shape + ((1,) if x.is_vec and x.col else ())
+        raise Unsupported("UNSUPPORTED np.shape argument")
+
+    @staticmethod
+    def asarray(x, dtype=None):
+        return x
+
+    array = asarray
+
+    @staticmethod
+    def copy(x):
+        return x
+
+    def __getattr__(self, name):
+        raise Unsupported(f"UNSUPPORTED np.{name} in the kernel")
+
+
+def _module(repo):
+    import importlib
+    import os
+    from .blocks import _model_module
+    _model_module(repo)
+    S = importlib.import_module("lekkersim.scattering")
+    f = os.path.realpath(S.__file__)
+    if not f.startswith(os.path.realpath(repo) + os.sep):
+        raise Unsupported(f"UNSUPPORTED lekkersim.scattering imported from {f}")
+    return S
+
+
+def _operand(Smod, name, N, M):
+    X = Smod.S_matrix(N, M)
+    X.S11 = MX("leaf", (f"{name}.S11",), (M, N))
+    X.S22 = MX("leaf", (f"{name}.S22",), (N, M))
+    X.S12 = MX("leaf", (f"{name}.S12",), (M, M))
+    X.S21 = MX("leaf", (f"{name}.S21",), (N, N))
+    return X
+
+
+def trace(repo):
+    Smod = _module(repo)
+    saved = {k: getattr(Smod, k) for k in ("np", "linalg") if hasattr(Smod, k)}
+    info = {}
+    # ---- matching operands of the real code are accepted
+    try:
+        Smod.S_matrix(2, 3).add(Smod.S_matrix(3, 4))
+        info["accepts_matching"] = True
+    except Exception:
+        info["accepts_matching"] = False
+    Smod.np = _NP()
+    Smod.linalg = _Linalg()
+    try:
+        # ---- the guard: mismatched intermediate dimensions are rejected by the code itself, before any arithmetic
+        try:
+            _operand(Smod, "A", N_, K_).add(_operand(Smod, "B", M_, N_))
+            info["guard"] = False
+        except (Unsupported, ShapeMismatch):
+            info["guard"] = False
+        except Exception:
+            info["guard"] = True
+        try:
+            A, B = _operand(Smod, "A", N_, K_), _operand(Smod, "B", K_, M_)
+            C = A.add(B)
+            blocks = {}
+            for f, shape in (("S11", (M_, N_)), ("S22", (N_, M_)), ("S12", (M_, M_)), ("S21", (N_, N_))):
+                x = getattr(C, f, None)
+                if not isinstance(x, MX) or x.shape != shape:
+                    raise Unsupported(f"UNSUPPORTED add: result field {f} is {type(x).__name__} of shape {getattr(x, 'shape', None)}, expected {shape}")
+                blocks[f] = x
+            info["dims"] = (getattr(C, "N", None) == N_ and getattr(C, "M", None) == M_)
+            A, B = _operand(Smod, "A", N_, K_), _operand(Smod, "B", K_, M_)
+            u, d = MX("leaf", ("u",), (N_,)), MX("leaf", ("d",), (M_,))
+            r = A.int_complete(B, u, d)
+            if not (isinstance(r, tuple) and len(r) == 2 and all(isinstance(x, MX) and x.shape == (K_,) for x in r)):
+                raise Unsupported("UNSUPPORTED int_complete: result is not a pair of interface vectors")
+            if any(x.col for x in r):
+                raise Unsupported("UNSUPPORTED int_complete: result left in column form")
+        except Unsupported:
+            raise
+        except Exception as e:
+            raise Unsupported(f"UNSUPPORTED kernel on symbolic operands: {type(e).__name__}: {e}")
+    finally:
+        for k, v in saved.items():
+            setattr(Smod, k, v)
+    return blocks, r, info
 
 
 def generate(repo: str) -> str:
-    path = "lekkersim/scattering.py"
-    src = open(f"{repo}/{path}").read()
-    return KernelTranslator(src, path).render()
+    blocks, waves, info = trace(repo)
+    guard_ok = info["guard"] and info["accepts_matching"]
+    out = ["-- GENERATED on every run by harness/translate/kernel.py (symbolic execution of S_matrix.add / int_complete of",
+           "-- /repo/lekkersim/scattering.py on operands with symbolic blocks) — do not edit.",
+           "import LekkerVerif.Core.KernelDefs", "", "open Matrix", "", "namespace Generated", "",
+           "variable {F : Type*} [Field F]",
+           "variable {n k m : Type*} [Fintype n] [Fintype k] [Fintype m] [DecidableEq n] [DecidableEq k] [DecidableEq m]", "",
+           "/-- `S_matrix.add` of the current source, traced on `A : (n, k)`, `B : (k, m)`. -/",
+           "noncomputable def add (A : SM F n k) (B : SM F k m) : SM F n m :=",
+           f"  {{ S21 := {blocks['S21'].lean()}",
+           f"    S11 := {blocks['S11'].lean()}",
+           f"    S12 := {blocks['S12'].lean()}",
+           f"    S22 := {blocks['S22'].lean()} }}", "",
+           "/-- the source rejects operands whose intermediate dimensions differ and accepts matching ones (executed) -/",
+           f"def addGuardPresent : Bool := {'true' if guard_ok else 'false'}",
+           "/-- the result carries the dimensions (self.N, s.M) -/",
+           f"def addResultDimsOk : Bool := {'true' if info['dims'] else 'false'}", "",
+           "/-- `S_matrix.int_complete` of the current source: interface amplitudes (first → second, second → first). -/",
+           "noncomputable def intComplete (A : SM F n k) (B : SM F k m) (u : n → F) (d : m → F) : (k → F) × (k → F) :=",
+           f"  ({waves[0].lean()},",
+           f"   {waves[1].lean()})", "", "end Generated", ""]
+    return "\n".join(out)
 
 
 if __name__ == "__main__":
